@@ -2202,6 +2202,14 @@ func (h *fsmHandler) loop(ctx context.Context, wg *sync.WaitGroup) {
 		}
 
 		if nextState == bgp.BGP_FSM_ESTABLISHED && oldState == bgp.BGP_FSM_OPENCONFIRM {
+			// Only established() reads fsm.notification: what is still queued
+			// there was requested before this session came up (ResetPeer or
+			// ShutdownPeer on a peer that was not established) and must not
+			// tear it down.
+			select {
+			case <-fsm.notification:
+			default:
+			}
 			fsm.logger.Info("Peer Up")
 		}
 
